@@ -426,7 +426,7 @@ static size_t run_child(Exec &x, const std::vector<RunSpec> &specs, size_t from,
             Json gen;
             const Json *plan = sp.plan;
             if (!plan) {
-                gen = x.w->generate(x.prop, sp.seed, x.tier);
+                gen = x.w->generate_indexed(x.prop, sp.seed, x.tier, sp.idx);
                 plan = &gen;
             }
             Outcome out;
@@ -476,7 +476,7 @@ static void run_specs(Exec &x, const std::vector<RunSpec> &specs, int out_fd)
         Json gen;
         const Json *plan = sp.plan;
         if (!plan) {
-            gen = x.w->generate(x.prop, sp.seed, x.tier);
+            gen = x.w->generate_indexed(x.prop, sp.seed, x.tier, sp.idx);
             plan = &gen;
         }
         Outcome out;
@@ -750,7 +750,7 @@ static void shrink_one(World *w, const std::string &prop, int tier, uint64_t roo
     exec_init(x, w, prop, tier);
     w->setup(prop, tier);
     uint64_t seed = run_seed(root_seed, prop, idx);
-    Json plan = w->generate(prop, seed, tier);
+    Json plan = w->generate_indexed(prop, seed, tier, idx);
     Json r1 = exec_plan(x, plan, seed), r2 = exec_plan(x, plan, seed);
     std::string core = core_of(target);
     if (r1.gets("ed") != r2.gets("ed") || !has_core(r1, core) || !has_core(r2, core)) {
@@ -1306,7 +1306,7 @@ int main(int argc, char **argv)
         int tier = !strcmp(argv[3], "thorough");
         w->setup(argv[2], tier);
         int64_t idx = atoll(argv[4]);
-        Json p = w->generate(argv[2], run_seed(seed, argv[2], idx), tier);
+        Json p = w->generate_indexed(argv[2], run_seed(seed, argv[2], idx), tier, idx);
         printf("%s\n", dump_pretty(p).c_str());
         return 0;
     }
